@@ -65,6 +65,18 @@ def cases(shard, rnd):
                 for pos in ('top', 'array', 'table', 'nested3', 'array12',
                             'deep-array12', 'xkey', 'xkey-nested'):
                     yield {'t': 'int', 'n': n, 'legacy': legacy, 'pos': pos}
+        # the same integers as members of int SUBCLASSES (enum.IntEnum /
+        # IntFlag members, http.HTTPStatus-like values, a user's class X(int)):
+        # they are integers and take the same rung of the ladder in both modes
+        for legacy in (False, True):
+            for n in sorted(gv.ladder_points(1)) + [200, 404, 40000, 70000,
+                                                    3000000000, 2**40]:
+                for sub in ('SubInt', 'IntEnum', 'IntFlag'):
+                    if sub == 'IntFlag' and n < 0:
+                        continue
+                    for pos in ('top', 'table', 'array', 'nested3'):
+                        yield {'t': 'int', 'n': n, 'legacy': legacy,
+                               'pos': pos, 'sub': sub}
         for _ in range(shard['n_random']):
             k = rnd.random()
             if k < 0.6:
@@ -197,8 +209,15 @@ def run_case(case, rec):
         elif t == 'int':
             rec.ev()
             n, legacy, pos = case['n'], case['legacy'], case['pos']
+            if case.get('sub'):
+                import enum
+                n = gv.SubInt(n) if case['sub'] == 'SubInt' else \
+                    enum.IntEnum('Status', {'MEMBER': n}).MEMBER \
+                    if case['sub'] == 'IntEnum' else \
+                    enum.IntFlag('Flag', {'MEMBER': n}).MEMBER
+                rec.count('int_subclass_cases')
             common.set_legacy(legacy)
-            rec.nt(canon.digest((n, legacy, pos)))
+            rec.nt(canon.digest((int(n), legacy, pos, case.get('sub'))))
             if pos == 'top':
                 if _check_top(n, legacy, rec, case, 'table_integer') and \
                         _check_top(n, legacy, rec, case,
